@@ -155,14 +155,14 @@ func (q *Query) Clone() (*Query, error) {
 	influxql.WalkFunc(n.stmt.Dimensions, func(qlNode influxql.Node) {
 		if cn, ok := qlNode.(*influxql.Call); ok {
 			if cn.Name == "time" {
+				// Keep the literals of the cloned statement itself, so that
+				// SetStartTime (alignGroup) changes the cloned query.
 				if dln, ok := cn.Args[0].(*influxql.DurationLiteral); ok {
-					n.groupByTimeDL = &influxql.DurationLiteral{
-						Val: dln.Val,
-					}
+					n.groupByTimeDL = dln
 				}
-				if don, ok := cn.Args[1].(*influxql.DurationLiteral); ok {
-					n.groupByOffsetDL = &influxql.DurationLiteral{
-						Val: don.Val,
+				if len(cn.Args) > 1 {
+					if don, ok := cn.Args[1].(*influxql.DurationLiteral); ok {
+						n.groupByOffsetDL = don
 					}
 				}
 			}
